@@ -84,7 +84,60 @@ def op_results(evs):
     return ops, health, heap
 
 
+def run_chunk(exe, name, body, warm, chunk, wd, idx, kf):
+    """the iterations of one chunk in one process (re-started after a crash); returns (records, owners, runs, crashes)"""
+    records, owners, crashes, runs = [], [], [], 0
+    pending = list(chunk)
+    while pending:
+        lines = ["init"] + warm + ["leakcheck"]
+        for (k, s) in pending:
+            lines += iteration(body, k, s, "k%d_s%d" % (k, s))
+        lines.append("finalize")
+        run = yv.run_script(exe, lines, wd, name="c16_%s_run%d" % (name, idx), timeout=900)
+        its = parse_iterations(run.events)
+        heap_prev = ([e["bytes"] for e in its.get("warmup", []) if e["e"] == "LeakCheck"] or [None])[0]
+        done = 0
+        for (k, s) in pending:
+            evs = its.get("k%d_s%d" % (k, s))
+            if evs is None:
+                break
+            ops, health, heap = op_results(evs)
+            if heap is None:
+                break
+            done += 1
+            runs += 1
+            stack = next((e["stack"] for e in evs if e["e"] == "Fault"), "")
+            bops = body["_bops"]
+            for i, o in enumerate(ops):
+                if o["skipped"] or i >= len(bops) or bops[i]["ev"] != o["ev"]:
+                    continue
+                records.append({"kind": "apiop", "op": o["op"], "ret": o["ret"], "normal": bops[i]["ret"], "errors": o["errors"], "fault": o["fault"], "allowed": [1]})
+                owners.append((name, k, s, o["ev"], i, stack))
+            records.append({"kind": "apirun", "health": health or "none", "health_normal": body["_bhealth"] or "none", "heap_delta": heap - heap_prev})
+            owners.append((name, k, s, "run", -1, stack))
+            heap_prev = heap
+        if done < len(pending):
+            # the process died in iteration pending[done]: a crash is a violation; the remaining iterations are re-run
+            k, s = pending[done]
+            evs = its.get("k%d_s%d" % (k, s), [])
+            stack = next((e["stack"] for e in evs if e["e"] in ("Fault", "FaultAt")), "")
+            lastop = next((e["e"] for e in reversed(evs) if e["e"] in OPS), "?")
+            crashes.append((name, k, s, stack, lastop, yv.crash_summary(run)))
+            runs += 1
+            pending = pending[done + 1:]
+        else:
+            pending = []
+    return records, owners, runs, crashes
+
+
+class Body(list):
+    """a scenario script plus what its fault-free run returned"""
+    def __getitem__(self, k):
+        return self.__dict__[k] if isinstance(k, str) else list.__getitem__(self, k)
+
+
 def c16(res, tier, seed):
+    import concurrent.futures as cf
     wd = yv.workdir("C16")
     m = yv.tlc("ApiLifecycle", "MC_ApiLifecycle.cfg", wd, timeout=900)
     yv.require_tlc_ok(m, "MC_ApiLifecycle.cfg") if not m["violated"] else None
@@ -94,13 +147,15 @@ def c16(res, tier, seed):
     r = yv.rng(seed, "c16")
     exe = yv.fault_driver("asan")
     S = scenarios(wd)
-    records, owners = [], []
+    records, owners, crashes = [], [], []
     kf = {k["id"]: k for k in yv.known_findings("C16")}
     total_runs = 0
-    for name, body in S.items():
-        # counting run (never fails: k = 0)
-        warm = iteration(body, 0, 0, "warmup")[:-1]      # one-time initialisations (OpenSSL, module tables) happen before the baseline is taken
-        base = yv.run_script(exe, ["init"] + warm + ["leakcheck"] + iteration(body, 0, 0, "base") + ["allocs", "finalize"], wd, name="c16_%s_base" % name)
+    jobs = []
+    CAP = 3000          # thorough: every k when the scenario has at most CAP allocations, else CAP sampled ones + both ends
+    exhaustive = {}
+    for name, body0 in S.items():
+        warm = iteration(body0, 0, 0, "warmup")[:-1]      # one-time initialisations (OpenSSL, module tables) happen before the baseline is taken
+        base = yv.run_script(exe, ["init"] + warm + ["leakcheck"] + iteration(body0, 0, 0, "base") + ["allocs", "finalize"], wd, name="c16_%s_base" % name)
         if not base.complete:
             raise yv.Broken("scenario %s does not run fault-free: %s" % (name, yv.crash_summary(base)))
         its = parse_iterations(base.events)
@@ -108,70 +163,53 @@ def c16(res, tier, seed):
         heap0 = [e["bytes"] for e in its["warmup"] if e["e"] == "LeakCheck"][0]
         if bheap != heap0:
             raise yv.Broken("scenario %s leaks without any fault (%s vs %s)" % (name, bheap, heap0))
-        N = [e for e in base.events if e["e"] == "Allocs"][0]["count"]
-        # allocations of the health check are counted too; restrict k to the scenario body: count at failoff is not logged, so use N of a body-only run
-        body_only = yv.run_script(exe, ["init", "opt failat 0"] + body + ["allocs", "opt failoff 0", "sdestroy 0", "sdestroy 1", "rdestroy 0", "rdestroy 1", "cdestroy 0", "finalize"], wd, name="c16_%s_cnt" % name)
+        # allocations of the scenario body alone (the health check's are not targets)
+        body_only = yv.run_script(exe, ["init", "opt failat 0"] + body0 + ["allocs", "opt failoff 0", "sdestroy 0", "sdestroy 1", "rdestroy 0", "rdestroy 1", "cdestroy 0", "finalize"], wd, name="c16_%s_cnt" % name)
         N = [e for e in body_only.events if e["e"] == "Allocs"][0]["count"]
         res.cov["parts"]["allocs_" + name] = N
         ks = list(range(1, N + 1))
         if tier == "quick" and N > 150:
             ks = sorted(set(r.sample(ks, 130) + list(range(1, 12)) + list(range(N - 8, N + 1))))
+        elif tier != "quick" and N > CAP:
+            ks = sorted(set(r.sample(ks, CAP) + list(range(1, 200)) + list(range(N - 200, N + 1))))
+        exhaustive[name] = len(ks) == N
         plan = [(k, s) for k in ks for s in (0, 1)] if tier != "quick" else [(k, k % 2 if k > 11 else 0) for k in ks] + [(k, 1) for k in ks[:11]]
-        pending = list(plan)
-        while pending:
-            chunk, pending = pending[:40], pending[40:]
-            lines = ["init"] + warm + ["leakcheck"]
-            for (k, s) in chunk:
-                lines += iteration(body, k, s, "k%d_s%d" % (k, s))
-            lines.append("finalize")
-            run = yv.run_script(exe, lines, wd, name="c16_%s_run" % name, timeout=600)
-            its = parse_iterations(run.events)
-            heap_prev = ([e["bytes"] for e in its.get("warmup", []) if e["e"] == "LeakCheck"] or [None])[0]
-            done = 0
-            for (k, s) in chunk:
-                tag = "k%d_s%d" % (k, s)
-                evs = its.get(tag)
-                if evs is None:
-                    break
-                ops, health, heap = op_results(evs)
-                finished = heap is not None
-                if not finished:
-                    break
-                done += 1
-                total_runs += 1
-                stack = next((e["stack"] for e in evs if e["e"] == "Fault"), "")
-                for i, o in enumerate(ops):
-                    if o["skipped"] or i >= len(bops) or bops[i]["ev"] != o["ev"]:
-                        continue
-                    records.append({"kind": "apiop", "op": o["op"], "ret": o["ret"], "normal": bops[i]["ret"], "errors": o["errors"], "fault": o["fault"], "allowed": [1]})
-                    owners.append((name, k, s, o["ev"], i, stack))
-                records.append({"kind": "apirun", "health": health or "none", "health_normal": bhealth or "none", "heap_delta": heap - heap_prev})
-                owners.append((name, k, s, "run", -1, stack))
-                heap_prev = heap
-                res.count(1, (name, k, s))
-            if done < len(chunk):
-                # the process died in iteration chunk[done]: a crash is a violation; the remaining iterations are re-queued
-                k, s = chunk[done]
-                evs = its.get("k%d_s%d" % (k, s), [])
-                stack = next((e["stack"] for e in evs if e["e"] in ("Fault", "FaultAt")), "")
-                lastop = next((e["e"] for e in reversed(evs) if e["e"] in OPS), "?")
-                sig = crash_signature(stack)
-                hit = [f for f in kf.values() if f.get("crash_site") and f["crash_site"] in stack]
-                if hit:
-                    res.known_finding(hit[0]["id"], hit[0]["what"])
-                else:
-                    res.violation("scenario %s: failing allocation %d (%s) crashed the process after %s; allocation site %s; %s" % (
-                        name, k, "sticky" if s else "single", lastop, sig, yv.crash_summary(run)),
-                        yv.save_replay("C16", "crash_%s_%d_%d" % (name, k, s), {"scenario": name, "k": k, "sticky": s, "stack": stack, "crash": yv.crash_summary(run), "script": body}))
-                total_runs += 1
-                pending = chunk[done + 1:] + pending
+        for ci in range(0, len(plan), 40):
+            jobs.append((name, warm, plan[ci:ci + 40], bops, bhealth))
+    def work(j):
+        idx, (name, warm, chunk, bops, bhealth) = j
+        sub = os.path.join(wd, "w%d" % idx)
+        os.makedirs(sub, exist_ok=True)
+        body = Body(scenarios(sub)[name]); body.__dict__["_bops"] = bops; body.__dict__["_bhealth"] = bhealth
+        w = iteration(list(body), 0, 0, "warmup")[:-1]
+        try:
+            return run_chunk(exe, name, body, w, chunk, sub, idx, kf)
+        finally:
+            import shutil
+            shutil.rmtree(sub, ignore_errors=True)
+    with cf.ThreadPoolExecutor(max_workers=min(16, os.cpu_count() or 4)) as ex:
+        for recs, own, runs, cr in ex.map(work, list(enumerate(jobs))):
+            records += recs; owners += own; total_runs += runs; crashes += cr
+            for o in own:
+                if o[3] == "run":
+                    res.count(1, (o[0], o[1], o[2]))
+    for (name, k, s, stack, lastop, summary) in crashes:
+        sig = crash_signature(stack)
+        hit = [f for f in kf.values() if f.get("crash_site") and f["crash_site"] in stack]
+        if hit:
+            res.known_finding(hit[0]["id"], hit[0]["what"])
+        else:
+            res.violation("scenario %s: failing allocation %d (%s) crashed the process after %s; allocation site %s; %s" % (name, k, "sticky" if s else "single", lastop, sig, summary),
+                          yv.save_replay("C16", "crash_%s_%d_%d" % (name, k, s), {"scenario": name, "k": k, "sticky": s, "stack": stack, "crash": summary, "script": S[name]}))
     res.cov["parts"]["runs"] = total_runs
+    res.cov["parts"]["every_allocation_failed"] = exhaustive
     bad, known, states = func.tlc_judge2(records, wd, "c16")
     res.cov["states"] += states; res.cov["transitions"] += states
     res.cov["traces_validated_against_impl"] += total_runs
     seen = set()
     for b in bad:
         name, k, s, ev, i, stack = owners[b]
+        body = S[name]
         site = crash_signature(stack)
         site2 = site_key(stack)
         if records[b]["kind"] == "apirun":
@@ -189,12 +227,13 @@ def c16(res, tier, seed):
                       yv.save_replay("C16", "bad_%s_%d_%d_%s" % (name, k, s, ev), {"scenario": name, "k": k, "sticky": s, "record": records[b], "stack": stack, "script": body}))
     res.sample({"scenario": "strings", "script": S["strings"][:4], "allocations": res.cov["parts"].get("allocs_strings")})
     res.level = "fault_enumeration"
-    res.cov["exhaustive"] = tier != "quick"
-    res.cov["rule"] = ("8 scenarios (strings of every kind incl. chains; 7 modules on a PE; externals at 3 levels; nested includes / namespaces / tags / metas; save+load via file "
+    res.cov["exhaustive"] = tier != "quick" and all(exhaustive.values())
+    res.cov["rule"] = ("9 scenarios (strings of every kind incl. chains; 7 modules on a PE; externals at 3 levels; nested includes / namespaces / tags / metas; save+load via file "
                        "and stream; block iterator with not-ready, abort, hashing; heavy regexes + matches; 40 rules). For each: every k in 1..N (N = allocations of the scenario; "
-                       "quick: 130 sampled + first 11 + last 9), single and sticky failure; each operation judged by ApiLifecycle!OpOK, each run by RunOK; distinct = (scenario, k, mode)")
+                       "quick: 130 sampled + first 11 + last 9; thorough: every k up to %d allocations, else %d sampled + 200 at both ends), single and sticky failure; each operation "
+                       "judged by ApiLifecycle!OpOK, each run by RunOK; distinct = (scenario, k, mode)" % (CAP, CAP))
     res.assumptions += ["allocations made by libyara through malloc/calloc/realloc/strdup/strndup are failed (incl. the flex scanners'); OpenSSL's internal allocations are not",
-                        "the heap baseline is ASan's current_allocated_bytes after destroying every object"]
+                        "the heap baseline is ASan's current_allocated_bytes after destroying every object; a growth is attributed to the allocation site of the injected failure"]
 
 
 def site_key(stack):
